@@ -138,6 +138,8 @@ class C08(Prop):
         return {"prop": self.id, "cfg": cfg, "events": g.ev}
 
     def _body(self, g, n, w, depth):
+        if depth == 0:
+            n = n * DEPTH
         table = [(k, v) for k, v in w.items() if v > 0]
         tries = 0
         made = 0
@@ -537,10 +539,20 @@ def run_history(hist, stop_on_violation=True, use_known=True):
     return w
 
 
-def gen_history(pid, run_seed):
+DEPTH = 1  # size knob of the generators: 1 = the quick profile; the thorough tier runs a third of its histories at 2
+
+
+def gen_history(pid, run_seed, depth=1):
+    global DEPTH
     rng = random.Random(run_seed)
-    h = PROPS[pid].generate(rng)
+    DEPTH = depth
+    try:
+        h = PROPS[pid].generate(rng)
+    finally:
+        DEPTH = 1
     h["seed"] = run_seed
+    if depth != 1:
+        h["depth"] = depth
     return h
 
 
@@ -573,7 +585,7 @@ class EpochGen:
                 if h is not None:
                     owners.append(h)
         fresh = list(owners)
-        n_ev = r.randint(o.get("min_events", 4), o.get("max_events", 18))
+        n_ev = r.randint(o.get("min_events", 4), o.get("max_events", 18) * DEPTH)
         w = o["weights"]
         table = [(k, v) for k, v in w.items() if v > 0]
         for _ in range(n_ev):
@@ -714,7 +726,7 @@ class C04(Prop):
             cfg["gc_preempt_p"] = 0.15
         g = Gen(rng, cfg)
         eg = EpochGen(g, {"weights": w, "max_events": rng.choice([8, 14, 22]), "adv_p": rng.choice([0.2, 0.5])})
-        eg.run(rng.randint(1, 3))
+        eg.run(rng.randint(1, 3 + DEPTH - 1))
         add_faults(g, g.ev, rng, cfg)
         return {"prop": self.id, "cfg": cfg, "events": g.ev}
 
@@ -763,7 +775,7 @@ class C05(Prop):
             cfg["gc_preempt_p"] = 0.15
         g = Gen(rng, cfg)
         eg = EpochGen(g, {"weights": w, "max_events": rng.choice([6, 10, 16]), "adv_p": rng.choice([0.2, 0.5]), "end": [("backward", 1)], "nnet_p": rng.choice([0, 0, 0.15])})
-        eg.run(rng.randint(1, 3))
+        eg.run(rng.randint(1, 3 + DEPTH - 1))
         add_faults(g, g.ev, rng, cfg)
         return {"prop": self.id, "cfg": cfg, "events": g.ev}
 
@@ -847,7 +859,7 @@ class C01(Prop):
         if rng.random() < 0.5:
             g.arr()
         self.motifs(rng, g, cfg)
-        n_nodes = rng.randint(3, 22)
+        n_nodes = rng.randint(3, 22 * DEPTH)
         kinds = self.kinds(cfg, rng)
         made = 0
         tries = 0
@@ -1244,7 +1256,7 @@ class C13(Prop):
         if cfg["lane"] == "epoch":
             w = {"view": 4, "adv": 1, "read": 3, "setitem": 3, "iop": 2, "ufunc": 2, "setshape": rng.choice([0, 1]), "drop": 0.5, "leaf": 0.5, "fail": rng.choice([2, 4])}
             eg = EpochGen(g, {"weights": w, "max_events": rng.choice([8, 14]), "end": [("backward", 1)], "only_fresh": rng.random() < 0.6})
-            eg.run(rng.randint(1, 3))
+            eg.run(rng.randint(1, 3 + DEPTH - 1))
         else:
             c8 = PROPS["C08"]
             w = {"arr": 2, "aview": 1, "wrap": 2, "leaf": 2, "grab": 1, "unary": 3, "binary": 5, "reduce": 2, "view": 4, "adv": 1, "out_arr": 2, "setitem": 3, "iop": 2,
@@ -1312,7 +1324,7 @@ class C10(Prop):
         g = Gen(rng, cfg)
         w = {"view": 3, "adv": 1, "read": 5, "setitem": rng.choice([0, 2]), "iop": rng.choice([0, 1]), "ufunc": rng.choice([0, 1]), "setshape": 0, "drop": 0.3, "leaf": 2, "fail": 0, "badleaf": 0.5}
         eg = EpochGen(g, {"weights": w, "max_events": rng.choice([8, 14]), "end": [("backward", 1)], "max_owners": 4})
-        eg.run(rng.randint(1, 2))
+        eg.run(rng.randint(1, 2 + DEPTH - 1))
         return {"prop": self.id, "cfg": cfg, "events": g.ev}
 
     def observers(self, hist):
@@ -1433,7 +1445,7 @@ class C14(C01):
         g = Gen(rng, cfg)
         w = {"view": 3, "adv": 0.5, "read": 4, "setitem": 2, "iop": 2, "ufunc": 4, "setshape": 0.3, "drop": 0.3, "leaf": 1, "fail": 0}
         eg = EpochGen(g, {"weights": w, "max_events": rng.choice([5, 9]), "end": [("backward", 1)], "min_ndim": 0})
-        eg.run(rng.randint(1, 2))
+        eg.run(rng.randint(1, 2 + DEPTH - 1))
         return {"prop": self.id, "cfg": cfg, "events": g.ev}
 
     def _gen_nnet(self, rng):
@@ -1585,7 +1597,7 @@ class C07(Prop):
             cfg["id_policy"] = rng.choice(["never", "lifo"])
         g = Gen(rng, cfg)
         leaves = [g.leaf(shape=g.rand_shape(min_ndim=1)) for _ in range(rng.randint(1, 3))]
-        n_iter = rng.randint(2, 5)
+        n_iter = rng.randint(2, 5 * DEPTH)
         it_id = 0
         last_body = None
         for it in range(n_iter):
@@ -1929,7 +1941,7 @@ class C17(Prop):
         for _ in range(rng.randint(1, 3)):
             g.arr()
         g.leaf()
-        for _ in range(rng.randint(5, 25)):
+        for _ in range(rng.randint(5, 25 * DEPTH)):
             k = g.wchoice([("wrap", 5), ("conv", 4), ("awrite", 4), ("unary", 2), ("binary", 3), ("view", 1.5), ("backward", 1.5), ("arr", 1), ("drop_t", 1), ("leaf", 0.5), ("reduce", 1)])
             if k == "wrap":
                 hs = sorted(g.a)
